@@ -110,6 +110,8 @@ def _pack_with_annotated_serialization_strategy(
         expression=(
             f"{spec.self_attrs_name}.{overridden_fn}({spec.expression})"
         ),
+        # the strategy may have been found by the Annotated type as its key
+        annotated_type=None,
     )
     field_metadata = new_spec.field_ctx.metadata
     if field_metadata.get("serialization_strategy") is strategy:
@@ -118,14 +120,7 @@ def _pack_with_annotated_serialization_strategy(
             for k, v in field_metadata.items()
             if k != "serialization_strategy"
         }
-    return PackerRegistry.get(
-        spec.copy(
-            type=value_type,
-            expression=(
-                f"{spec.self_attrs_name}.{overridden_fn}({spec.expression})"
-            ),
-        )
-    )
+    return PackerRegistry.get(new_spec)
 
 
 def get_overridden_serialization_method(
